@@ -90,6 +90,14 @@ func main() {
 		childMain(*in, *out)
 		return
 	}
+	if len(os.Args) > 1 && os.Args[1] == "rewitness" {
+		// debugging aid: rebuild the witness for the recorded observations of a replay file and emit the Coq case
+		var c Case
+		lib.ReadReplayCase(os.Args[2], &c)
+		c.Witness = buildWitness(&c)
+		lib.WriteShards(os.Args[3], "From Relay Require Import Base.Prelude Model.Hub Corr.C03 Corr.C05.", "case", []string{c.coq()}, 8)
+		return
+	}
 	a := lib.ParseArgs()
 	res := lib.NewResult("C05", a.Seed, a.Tier)
 	rng := lib.NewRng(a.Seed)
